@@ -314,7 +314,11 @@ func (s *script) step() {
 		}
 		s.split(n, min)
 	case r < 94:
-		s.restart(rng.Bool())
+		if rng.Chance(1, 4) {
+			s.stale()
+		} else {
+			s.restart(rng.Bool())
+		}
 	default:
 		if e.cfg.dur != 1 {
 			s.mine(false)
@@ -456,6 +460,55 @@ func (s *script) scenarioPartial() {
 	s.kinds["scenario-partial"]++
 }
 
+// scenarioDowntime: the node went down with broadcast transactions unconfirmed and comes back with
+// a new manager (empty pool) and a new wallet over the surviving store, which holds broadcast sets
+// of mixed ages — in particular an expired one ahead of the fresh ones.  The fresh sets must be in
+// the pool again, so that their inputs are not handed out a second time.
+func (s *script) scenarioDowntime() {
+	e, rng := s.e, s.rng
+	if rng.Chance(2, 3) {
+		s.stale()
+	}
+	n := 1 + rng.Intn(2)
+	for i := 0; i < n && s.stopped == ""; i++ {
+		bal, err := e.w.Balance()
+		must(err)
+		if bal.Spendable.IsZero() || s.tieRisk(false) {
+			break
+		}
+		amt := bal.Spendable.Div64(uint64(2 + rng.Intn(4))).Add(types.NewCurrency64(uint64(rng.Intn(9))))
+		h := e.nextH
+		s.fund(true, amt, false, amt.Div64(10).Mul64(uint64(rng.Intn(10))), 0)
+		s.observe()
+		if e.txns[h] == nil {
+			break
+		}
+		s.bcast(h, true)
+		s.observe()
+		if rng.Chance(1, 3) {
+			s.stale()
+		}
+	}
+	if s.stopped != "" {
+		return
+	}
+	s.restart(true)
+	s.observe()
+	// everything that is left can be funded, and not more
+	bal, err := e.w.Balance()
+	must(err)
+	if !s.tieRisk(false) {
+		h := e.nextH
+		s.fund(rng.Bool(), bal.Spendable, false, types.ZeroCurrency, 0)
+		s.observe()
+		if e.txns[h] != nil && rng.Bool() {
+			s.bcast(h, false)
+			s.observe()
+		}
+	}
+	s.kinds["scenario-downtime"]++
+}
+
 // scenarioExpiry (short reservation period only): fund everything, abandon the transaction, let the
 // period pass without any other wallet call, then read and fund again: the outputs must be back.
 func (s *script) scenarioExpiry() {
@@ -520,6 +573,8 @@ func runScript(name string, seed uint64, allowShort bool, nOps int) *vh.Case {
 		s.scenarioChain()
 	case 2:
 		s.scenarioPartial()
+	case 3:
+		s.scenarioDowntime()
 	}
 	for i := 0; i < nOps && s.stopped == ""; i++ {
 		s.step()
